@@ -109,8 +109,8 @@ MaxNumOf(x) == CASE x[1] = "n" -> x[2]
 Steps(m, T, x) ==
   CASE m = "arith" -> LET n == LeafCount(x) k == MaxNumOf(x) IN
                       { y \in ArithSteps(x, T = "ring") : (LeafCount(y) <= MaxLeaves \/ LeafCount(y) <= n) /\ (MaxNumOf(y) <= MaxNum \/ MaxNumOf(y) <= k) }
-    [] m = "conj" -> { y \in ACSteps(x, "and") : ACLeaves(y, "and") <= MaxMembers }
-    [] m = "disj" -> { y \in ACSteps(x, "or") : ACLeaves(y, "or") <= MaxMembers }
+    [] m = "conj" -> { y \in ACSteps(x, "and") : ACLeaves(y, "and") <= MaxMembers \/ ACLeaves(y, "and") <= ACLeaves(x, "and") }
+    [] m = "disj" -> { y \in ACSteps(x, "or") : ACLeaves(y, "or") <= MaxMembers \/ ACLeaves(y, "or") <= ACLeaves(x, "or") }
     [] m = "nnf" -> { y \in NnfSteps(x) : PSize(y) <= MaxNnfSize \/ PSize(y) <= PSize(x) }
 
 \* ------------------------------------------------------------------ seeds
@@ -133,7 +133,8 @@ Special(T) ==
 ArithSeeds(T) == UNION { Trees(n) : n \in 1..SeedLeaves } \cup Special(T)
 
 bA == <<"v", "A">>  bB == <<"v", "B">>  bC == <<"v", "C">>
-Lits == { bA, bB, Not(bA), <<"T">>, <<"F">>, <<"imp", bA, bB>> } \cup (IF Rich THEN { bC, Not(bB), <<"or", bA, bC>> } ELSE {})
+\* literals over two atoms WITH BOTH NEGATIONS (a complementary pair on the smallest atom and one on a non-smallest atom), true, false
+Lits == { bA, bB, Not(bA), Not(bB), <<"T">>, <<"F">> } \cup (IF Rich THEN { bC, Not(bC), <<"imp", bA, bB>>, <<"or", bA, bC>> } ELSE {})
 \* a member of a disjunction is not itself a disjunction
 Pool(c) == IF c = "or" THEN Lits \ { <<"or", bA, bC>> } ELSE Lits
 \* one chain per member set (in the order TLC enumerates the set); the other arrangements are reached by the actions
@@ -141,12 +142,22 @@ RECURSIVE Chain(_,_)
 Chain(c, M) == IF Cardinality(M) = 1 THEN CHOOSE m \in M : TRUE
                ELSE LET m == CHOOSE y \in M : TRUE IN <<c, m, Chain(c, M \ {m})>>
 MemberSets(c) == { M \in SUBSET Pool(c) : Cardinality(M) >= 1 /\ Cardinality(M) <= PropMembers }
+\* wide seeds: 3-4 members (sequences: a member may be repeated) over three atoms and their negations, chosen so that a complementary
+\* pair sits on the smallest, a middle and the largest atom, alone or with a second pair, with true / false / a compound member, and
+\* with a duplicated member.  Steps that do not grow are always allowed: EVERY order and bracketing of each is explored.
+WideSeqs == { <<bA, bB, Not(bB)>>, <<bA, bB, Not(bB), bC>>, <<bA, Not(bA), bB, Not(bB)>>, <<bA, bB, bC, Not(bC)>>, <<bA, Not(bA), bB, bC>>,
+              <<bA, bB, Not(bB), <<"T">> >>, <<bA, bB, Not(bB), <<"F">> >>, <<bA, bB, Not(bB), bB>>, <<bA, bA, bB, Not(bB)>>,
+              <<bA, Not(bB), bB, Not(bB)>>, << <<"imp", bA, bB>>, bA, Not(bB)>>, << <<"imp", bA, bB>>, bB, Not(bB), bA>>,
+              <<bB, Not(bC), bC>>, <<Not(bA), bB, Not(bB), bC>> }
+RECURSIVE ChainSeq(_,_)
+ChainSeq(c, q) == IF Len(q) = 1 THEN q[1] ELSE <<c, q[1], ChainSeq(c, Tail(q))>>
 NnfSeeds == { Not(<<"and", bA, bB>>), Not(<<"or", bA, Not(bB)>>), Not(Not(bA)), Not(<<"and", bA, <<"or", bB, bA>> >>),
               <<"and", Not(<<"or", bA, bB>>), bA>>, Not(<<"T">>), <<"or", Not(<<"F">>), bA>> }
             \cup (IF Rich THEN { Not(<<"and", <<"or", bA, bB>>, Not(bC)>>), Not(<<"or", <<"and", bA, bB>>, <<"and", Not(bA), bC>> >>),
                                  Not(<<"and", <<"imp", bA, bB>>, bA>>) } ELSE {})
 SeedSet == { <<"arith", "nat", s>> : s \in ArithSeeds("nat") } \cup { <<"arith", "ring", s>> : s \in ArithSeeds("ring") }
            \cup { <<"conj", "bool", Chain("and", M)>> : M \in MemberSets("and") } \cup { <<"disj", "bool", Chain("or", M)>> : M \in MemberSets("or") }
+           \cup { <<"conj", "bool", ChainSeq("and", q)>> : q \in WideSeqs } \cup { <<"disj", "bool", ChainSeq("or", q)>> : q \in WideSeqs }
            \cup { <<"nnf", "bool", s>> : s \in NnfSeeds }
 ClassOf(m, x) == CASE m = "arith" -> PolyOf(x) [] m = "conj" -> MemberSet(x, "and") [] m = "disj" -> MemberSet(x, "or") [] m = "nnf" -> {x}
 
